@@ -355,6 +355,10 @@ void ares_dnsrec_convert_cb(void *arg, ares_status_t status, size_t timeouts,
 
 void ares_free_query(ares_query_t *query);
 
+/*! Unlink a query from all channel and connection indexes (idempotent). Must
+ *  be done before a query's completion callback is invoked. */
+void ares_detach_query(ares_query_t *query);
+
 unsigned short ares_generate_new_id(ares_rand_state *state);
 ares_status_t  ares_expand_name_validated(const unsigned char *encoded,
                                           const unsigned char *abuf, size_t alen,
